@@ -10,20 +10,13 @@ from harness.impl import c01types as I
 
 IMPORTS = "From Coq Require Import ZArith.\nFrom Ford Require Import Base.Str Base.StrX Sem.TypeSpec Sem.DeclSpec Corr.C01types."
 THEOREMS = [
-    "C01_type_spellings", "C01_character_spellings", "C01_type_spellings_refuted", "C01_type_spellings_refuted_double",
-    "C01_type_spellings_refuted_star", "C01_character_spellings_refuted_len", "C01_type_spellings_refuted_kind_comma",
-    "C01_case_invariance", "C01_case_invariance_refuted_attribute", "C01_attr_stmt_equiv",
-    "C01_attr_stmt_equiv_refuted_optional", "C01_attr_stmt_equiv_refuted_parameter",
-    "C01_attr_stmt_equiv_refuted_dimension", "C01_attr_stmt_equiv_refuted_intent_in_out",
-    "C01_attr_stmt_equiv_refuted_result", "C01_prefix_refuted_case", "C01_prefix_refuted_keyword", "C01_argument_order",
+    "C01_type_spellings", "C01_character_spellings", "C01_case_invariance", "C01_case_invariance_refuted_attribute",
+    "C01_attr_stmt_equiv", "C01_attr_stmt_equiv_optional", "C01_attr_stmt_equiv_intent", "C01_attr_stmt_equiv_parameter",
+    "C01_attr_stmt_equiv_refuted_dimension", "C01_argument_order",
 ]
 PROPS_FILE = "theories/Props/C01types.v"
 BUILD_TARGETS = ["theories/Corr/C01types.vo", "theories/Props/C01types.vo"]
-REGIONS = {1: "double-without-blank", 2: "blank-after-star", 3: "len-expression-truncated", 4: "kind-comma-truncated",
-           5: "attribute-text-spelling", 7: "dimension-attribute-vs-array-spec", 8: "optional-statement",
-           9: "parameter-statement", 10: "dimension-attribute-vs-array-spec", 11: "intent-in-out-statement",
-           12: "double-without-blank", 13: "prefix-type-lower-cased", 14: "prefix-keyword-inside-type",
-           15: "result-attribute-statements-ignored"}
+REGIONS = {5: "attribute-text-spelling", 7: "dimension-attribute-vs-array-spec", 10: "dimension-attribute-vs-array-spec"}
 UNMODELLED, MALFORMED = 1000, 2000
 
 
@@ -250,7 +243,8 @@ def run_units(chk, judge, P, stats, seen, pending):
 
 
 def witnesses(chk, P):
-    """replay the witness of every recorded finding on the implementation (KNOWN-FINDING lines)"""
+    """open findings: replay the witness (KNOWN-FINDING lines); repaired defects: their former witnesses are
+    regression inputs -- the defect coming back is a failing input"""
     def mv(*lines):
         o = P.module_vars(list(lines))
         return {v["name"]: v for v in o[1]} if o[0] == "ok" else o
@@ -258,29 +252,46 @@ def witnesses(chk, P):
     def un(kind, header, lines, end):
         o = P.unit(kind, header, lines, end)
         return o[1] if o[0] == "ok" else None
-    a = mv("doubleprecision x", "double precision y")
-    chk.known("double-without-blank", isinstance(a, dict) and a["x"]["vartype"] != a["y"]["vartype"])
-    b = mv("character * 10 c")
-    chk.known("blank-after-star", not (isinstance(b, dict) and "c" in b and b["c"]["strlen"] == "10"))
-    c = mv("character(len=n+1) c")
-    chk.known("len-expression-truncated", isinstance(c, dict) and c["c"]["strlen"] != "n+1")
-    d = mv("real(kind=selected_real_kind(6,37)) r")
-    chk.known("kind-comma-truncated", isinstance(d, dict) and d["r"]["kind"] != "selected_real_kind(6,37)")
+
+    def regression(key, text, bad, got):
+        chk.count(("regression", key), sample=None)
+        if bad:
+            chk.violation("failing-input", {"what": "a repaired defect is back: " + key, "text": text, "ford": got}, True)
     e = mv("integer, TARGET :: w")
     chk.known("attribute-text-spelling", isinstance(e, dict) and e["w"]["attribs"] == ["TARGET"])
     f = mv("real, dimension(3) :: a", "real :: b(3)")
     chk.known("dimension-attribute-vs-array-spec", isinstance(f, dict) and f["a"]["dimension"] != f["b"]["dimension"])
-    g = un("subroutine", "subroutine s(b, d)", ["integer b", "optional b", "real d", "intent(in out) d",
-                                               "character(len=5) str", "parameter (str = 'a  b')"], "end subroutine")
-    chk.known("optional-statement", bool(g) and not g["args"][0]["optional"])
-    chk.known("intent-in-out-statement", bool(g) and g["args"][1]["intent"] != "inout")
-    chk.known("parameter-statement", bool(g) and not g["vars"][0]["parameter"])
-    h = un("function", "function f() result(r)", ["real r", "dimension r(3)"], "end function")
-    chk.known("result-attribute-statements-ignored", bool(h) and h["retvar"]["attribs"] == [] and h["retvar"]["dimension"] == "")
+    a = mv("doubleprecision x", "double precision y", "doublecomplex z")
+    regression("double-without-blank", "doubleprecision x / double precision y / doublecomplex z",
+               not (isinstance(a, dict) and a["x"]["vartype"] == a["y"]["vartype"] == "double precision"
+                    and a["z"]["vartype"] == "double complex"), a)
+    b = mv("character * 10 c", "real * 8 x", "character * ( * ) d")
+    regression("blank-after-star", "character * 10 c / real * 8 x / character * ( * ) d",
+               not (isinstance(b, dict) and b.get("c", {}).get("strlen") == "10" and b.get("x", {}).get("kind") == "8"
+                    and b.get("d", {}).get("strlen") == "*"), b)
+    c = mv("character(len=n+1) c", "character(2*n) d", "character(len = 2*n) e")
+    regression("len-expression-truncated", "character(len=n+1) c / character(2*n) d / character(len = 2*n) e",
+               not (isinstance(c, dict) and c["c"]["strlen"] == "n+1" and c["d"]["strlen"] == "2*n" and c["e"]["strlen"] == "2*n"), c)
+    d = mv("real(kind=selected_real_kind(6,37)) r")
+    regression("kind-comma-truncated", "real(kind=selected_real_kind(6,37)) r",
+               not (isinstance(d, dict) and d["r"]["kind"] == "selected_real_kind(6,37)"), d)
+    body = ["integer b", "optional b", "real d", "intent(in out) d", "character(len=5) str", "parameter (str = 'a  b')"]
+    g = un("subroutine", "subroutine s(b, d)", body, "end subroutine")
+    regression("optional-statement", body, not (g and g["args"][0]["optional"] and g["args"][0]["attribs"] == []), g)
+    regression("intent-in-out-statement", body, not (g and g["args"][1]["intent"] == "inout"), g)
+    regression("parameter-statement", body,
+               not (g and g["vars"][0]["parameter"] and g["vars"][0]["attribs"] == []
+                    and g["vars"][0]["initial"] == "'a" + G.NBSP * 2 + "b'"), g)
+    h = un("function", "function f() result(r)", ["real r", "save r", "pointer r"], "end function")
+    regression("result-attribute-statements-ignored", "function f() result(r) / real r / save r / pointer r",
+               not (h and h["retvar"]["attribs"] == ["save", "pointer"]), h)
     i = un("function", "real(WP) function f()", [], "end function")
-    chk.known("prefix-type-lower-cased", bool(i) and i["retvar"]["kind"] == "wp")
+    regression("prefix-type-lower-cased", "real(WP) function f()", not (i and i["retvar"]["kind"] == "WP"), i)
     j = un("function", "type(module_t) function f3()", [], "end function")
-    chk.known("prefix-keyword-inside-type", bool(j) and j["attribs"] == ["module"])
+    regression("prefix-keyword-inside-type", "type(module_t) function f3()",
+               not (j and j["attribs"] == [] and j["retvar"]["proto"] == ["module_t", ""]), j)
+    k = un("function", "double precision function f1()", [], "end function")
+    regression("double-without-blank", "double precision function f1()", not (k and k["retvar"]["vartype"] == "double precision"), k)
 
 
 def replay_part(chk, rep, judge=None):
